@@ -21,6 +21,7 @@
 //! @out the charstring interpreter (number decoding inside a program, width prefix, stem and hint-mask bookkeeping, callsubr/callgsubr nesting, seac, CFF2 blend/vsindex), operand values that are not small integers (fractional 16.16 operands, magnitudes above 127), operand stacks longer than 13, FDSelect, bounding-box conversion
 
 use allsorts::cff::charstring::{verif_parse_number, verif_subroutine_index, VisitOp};
+use allsorts::cff::cff2::{verif_blend, verif_write_stack_value};
 use allsorts::cff::outline::verif_path_operator;
 use allsorts::cff::CFFError;
 use allsorts::outline::OutlineSink;
@@ -622,4 +623,128 @@ fn c18_number_encodings() {
     kani::cover!(v == 250 && rest[0] == 255, "largest positive two-byte integer");
     kani::cover!(v == 254 && rest[0] == 255, "most negative two-byte integer");
     kani::cover!(raw == -32768 * 65536);
+}
+
+/// One of a few exactly representable scalars, or "region not applicable".
+fn any_scalar() -> Option<f32> {
+    let c: u8 = kani::any();
+    kani::assume(c < 4);
+    match c {
+        0 => None,
+        1 => Some(0.25),
+        2 => Some(0.5),
+        _ => Some(1.0),
+    }
+}
+
+/// CFF2 blend: n*(k+1) operands and the count n are replaced by n values, value i = default i +
+/// sum over regions j of scalar j * delta (i, j); regions that do not apply contribute nothing.
+fn blend_check<const K: usize, const N: usize>() {
+    let mut scalars = [None; K];
+    let mut j = 0;
+    while j < K {
+        scalars[j] = any_scalar();
+        j += 1;
+    }
+    // a few operands below the blend arguments stay untouched
+    let below = small(8);
+    let mut stack = [0f32; 12];
+    let mut vals = [0i32; 12];
+    stack[0] = below as f32;
+    let total = N * (K + 1);
+    let mut i = 0;
+    while i < total {
+        vals[i] = small(8);
+        stack[1 + i] = vals[i] as f32;
+        i += 1;
+    }
+    stack[1 + total] = N as f32;
+    let got = verif_blend(&scalars, &mut stack, 2 + total);
+    assert!(got == Ok(1 + N), "blend leaves n values");
+    assert!(stack[0] == below as f32, "operands below the blend arguments are untouched");
+    let mut i = 0;
+    while i < N {
+        // exact: multiples of 1/4 with magnitude below 2^10
+        let mut want = vals[i] as f32;
+        let mut j = 0;
+        while j < K {
+            if let Some(sc) = scalars[j] {
+                want += sc * vals[N + i * K + j] as f32;
+            }
+            j += 1;
+        }
+        assert!(stack[1 + i] == want, "blended value");
+        i += 1;
+    }
+    kani::cover!(K == 0 || scalars[0] == Some(0.5), "half-way scalar");
+}
+
+// @bound blend with k = 1 region and n = 2 values: every default and delta in -128..127, scalar in {not applicable, 0.25, 0.5, 1.0}
+#[kani::proof]
+#[kani::unwind(14)]
+fn c18_blend_k1_n2() {
+    blend_check::<1, 2>();
+}
+
+// @bound blend with k = 2 regions and n = 2 values: every default and delta in -128..127, scalars in {not applicable, 0.25, 0.5, 1.0}
+#[kani::proof]
+#[kani::unwind(14)]
+fn c18_blend_k2_n2() {
+    blend_check::<2, 2>();
+}
+
+// @bound blend with k = 0 regions (an item variation data without regions) and n = 1: the default passes through, no panic
+#[kani::proof]
+#[kani::unwind(14)]
+fn c18_blend_k0_n1() {
+    blend_check::<0, 1>();
+}
+
+/// The CFF2 -> CFF charstring converter writes operands with the shortest Type 2 encoding, and
+/// the value read back by the charstring number decoders is the value written.
+// @bound every i16 integer operand and every 16.16 operand
+#[kani::proof]
+#[kani::unwind(8)]
+fn c18_operand_writer_roundtrip() {
+    let v: i16 = kani::any();
+    let bytes = verif_write_stack_value(false, v as i32).unwrap();
+    let want_len = if v >= -107 && v <= 107 {
+        1
+    } else if (v >= 108 && v <= 1131) || (v >= -1131 && v <= -108) {
+        2
+    } else {
+        3
+    };
+    assert!(bytes.len() == want_len, "shortest encoding");
+    // decode with the reference rules of TN5177 table 3
+    let b0 = bytes[0] as i32;
+    let dec = match bytes.len() {
+        1 => {
+            assert!(b0 >= 32 && b0 <= 246);
+            b0 - 139
+        }
+        2 => {
+            if b0 >= 247 && b0 <= 250 {
+                (b0 - 247) * 256 + bytes[1] as i32 + 108
+            } else {
+                assert!(b0 >= 251 && b0 <= 254);
+                -(b0 - 251) * 256 - bytes[1] as i32 - 108
+            }
+        }
+        _ => {
+            assert!(b0 == 28);
+            (((bytes[1] as u16) << 8) | bytes[2] as u16) as i16 as i32
+        }
+    };
+    assert!(dec == v as i32, "integer operand survives");
+    let raw: i32 = kani::any();
+    let fb = verif_write_stack_value(true, raw).unwrap();
+    assert!(fb.len() == 5 && fb[0] == 255);
+    let back = ((fb[1] as u32) << 24 | (fb[2] as u32) << 16 | (fb[3] as u32) << 8 | fb[4] as u32) as i32;
+    assert!(back == raw, "fixed operand survives");
+    kani::cover!(v == 1131);
+    kani::cover!(v == -1131);
+    kani::cover!(v == 1132);
+    std::mem::forget(bytes);
+    std::mem::forget(fb);
 }
